@@ -32,6 +32,7 @@ from io import BytesIO
 from liquer.constants import *
 import liquer.util as util
 import hashlib
+import threading
 from liquer.metadata import Metadata
 import traceback
 
@@ -483,7 +484,8 @@ class FileStore(Store):
         "Write to a temporary file (hidden in the metadata folder) and rename it"
         d = path.parent if path.parent.name == self.METADATA else path.parent / self.METADATA
         d.mkdir(parents=True, exist_ok=True)
-        tmp = d / f"{path.name}.tmp{os.getpid()}"
+        # the temporary name is private to the writer: two threads of one process may store the same key at the same time
+        tmp = d / f"{path.name}.tmp{os.getpid()}_{threading.get_ident()}"
         tmp.write_bytes(b)
         tmp.replace(path)
 
